@@ -81,6 +81,11 @@ class Kernel:
             # a closure value handed to a helper and called there:  f()  with f a ("closureval", key, captures, kernel)
             if nm in ("call_once", "call_mut", "call") and args:
                 f = self.leaf(ds(args[0]))
+                if f is None and isinstance(ds(args[0]), tuple) and ds(args[0])[0] == "fn":
+                    f = ("fnval", ds(args[0])[1].rsplit("::", 1)[-1])        # a function item called as a value (after inlining)
+                if f is None and isinstance(ds(args[0]), tuple) and ds(args[0])[:2] == ("agg", "closure"):
+                    a0_ = ds(args[0])
+                    f = ("closureval", a0_[2], a0_[3], self)                  # a closure value called where it was passed (after inlining)
                 if isinstance(f, tuple) and f and f[0] == "fnval":
                     # a function item passed as a value (`<N64 as Float>::floor`) and called here
                     actual = ds(args[1]) if len(args) > 1 else None
